@@ -84,7 +84,9 @@ def execute(doc_name, history):
             ret = None
             st["xd"] = type(e).__name__
         try:
-            ret2 = call(b, op, mode)
+            # the re-parse chain always uses the IN-PLACE form on its freshly parsed object: a copying
+            # operation must return what the in-place form produces on a copy
+            ret2 = call(b, op, "inplace" if mode == "copy" else mode)
         except Exception as e:  # noqa
             ret2 = None
             st["xr"] = type(e).__name__
